@@ -11,13 +11,13 @@ Proof. destruct p; simpl; congruence. Qed.
 (* module 0: preload, requires 1 under pcall then returns a fresh table; module 1: file in dir 1,
    fails; module 2: preload (Go), returns nothing; modules 4,5,6: a 3-cycle 4 -> 5 -> 6 -> 4 *)
 Definition ex_ops : list op :=
-  [ HSetPreload 0 (Some (mkLoader KLua [PRequire 1; Return (ETab 0)]));
+  [ HSetPreload 0 (Some (mkLoader KLua [PRequire TCo 1; Return (ETab 0)]));
     HSetFile 1 1 (Some (FScript [Fail]));
     HSetPreload 2 (Some (mkLoader KGo []));
     HSetFile 0 2 (Some (FScript [Return (EStr 0)]));
-    HSetPreload 4 (Some (mkLoader KLua [Require 5]));
-    HSetFile 0 5 (Some (FScript [Require 6; Return ETrue]));
-    HSetPreload 6 (Some (mkLoader KGo [Require 4])) ].
+    HSetPreload 4 (Some (mkLoader KLua [Require TSame 5]));
+    HSetFile 0 5 (Some (FScript [Require TCo 6; Return ETrue]));
+    HSetPreload 6 (Some (mkLoader KGo [Require TCo 4])) ].
 
 Definition ex : state := fst (run 1 init ex_ops).
 
@@ -51,8 +51,8 @@ Proof.
 Qed.
 
 Example once_per_load_ex :
-  search loLoaders ex 0 [] = inr (OPre, KLua, [PRequire 1; Return (ETab 0)]) /\
-  guarded [PRequire 1; Return (ETab 0)] = true /\ truthy (loaded ex 0) = false /\
+  search loLoaders ex 0 [] = inr (OPre, KLua, [PRequire TCo 1; Return (ETab 0)]) /\
+  guarded [PRequire TCo 1; Return (ETab 0)] = true /\ truthy (loaded ex 0) = false /\
   count_log 0 (log ex1) = S (count_log 0 (log ex)).
 Proof. repeat split. Qed.
 
@@ -92,13 +92,13 @@ Example path_order_ex :
   newlog (set_loaded ex 6 VTrue) (fst (require 2 (set_loaded ex 6 VTrue) 5)) = [(5, OFile 0)].
 Proof. split; reflexivity. Qed.
 
-(* ---- loops: the 3-cycle 4 -> 5 -> 6 -> 4 ---- *)
+(* ---- loops: the 3-cycle 4 -> 5 -> 6 -> 4; the links 5 -> 6 and 6 -> 4 cross a coroutine boundary ---- *)
 Example links_ex : links ex [4; 5; 6] 4.
 Proof.
   cbn [links hd].
-  split; [exists OPre, KLua, []; reflexivity|].
-  split; [exists (OFile 0), KLua, [Return ETrue]; reflexivity|].
-  split; [exists OPre, KGo, []; reflexivity|exact I].
+  split; [exists TSame, OPre, KLua, []; reflexivity|].
+  split; [exists TCo, (OFile 0), KLua, [Return ETrue]; reflexivity|].
+  split; [exists TCo, OPre, KGo, []; reflexivity|exact I].
 Qed.
 
 Example nodup_ex : NoDup [4; 5; 6].
@@ -116,7 +116,7 @@ Proof.
 Qed.
 
 Example loop_direct_ex :
-  snd (require 2 (set_preload init 0 (Some (mkLoader KLua [Require 0]))) 0) = Err (ELoop 0).
+  snd (require 2 (set_preload init 0 (Some (mkLoader KLua [Require TSame 0]))) 0) = Err (ELoop 0).
 Proof. reflexivity. Qed.
 
 (* ---- missing ---- *)
